@@ -75,6 +75,7 @@ type World struct {
 	FnByKey map[string]*ssa.Function
 	Opts   Options
 	recCache map[string]map[string]bool
+	MutableGlobals map[*ssa.Global]bool
 }
 
 type Options struct {
@@ -115,6 +116,14 @@ type Enc struct {
 	paramVals map[string]Val
 	xexit    []edge
 	usedLemmas map[string]bool
+	implUsed   map[string]types.Type
+	strKeys    []Val
+	iterMap    map[ssa.Value]Val
+	closureOf  map[string]*ssa.MakeClosure
+	inRaise    bool
+	lateBlocks map[*ssa.BasicBlock]bool
+	ghostUsed  map[int]bool
+	privateCells []*ssa.Alloc
 }
 
 type lvalue struct {
@@ -135,7 +144,7 @@ func NewEnc(w *World, fn *ssa.Function, key string, spec *FuncSpec) *Enc {
 		cellName: map[string][]*ssa.Alloc{}, regs: map[ssa.Value]Val{}, addrs: map[ssa.Value]lvalue{}, used: map[string]bool{},
 		usedTrusted: map[string]bool{}, loops: map[*ssa.BasicBlock]*loopInfo{}, inEdges: map[*ssa.BasicBlock][]edge{},
 		counters: map[string]int{}, iterStr: map[ssa.Value]Val{}, closures: map[ssa.Value]*ssa.MakeClosure{},
-		tupleOf: map[ssa.Value][]Val{}, callOrd: map[string]int{}, freeVars: map[*ssa.FreeVar]lvalue{}, paramVals: map[string]Val{}, usedLemmas: map[string]bool{}}
+		tupleOf: map[ssa.Value][]Val{}, callOrd: map[string]int{}, freeVars: map[*ssa.FreeVar]lvalue{}, paramVals: map[string]Val{}, usedLemmas: map[string]bool{}, implUsed: map[string]types.Type{}, iterMap: map[ssa.Value]Val{}, closureOf: map[string]*ssa.MakeClosure{}, lateBlocks: map[*ssa.BasicBlock]bool{}, ghostUsed: map[int]bool{}}
 }
 
 func (e *Enc) freshName(prefix string) string {
@@ -267,6 +276,9 @@ func (e *Enc) lookupLocal(c *Ctx, name string) (Val, bool) {
 	}
 	var live []*ssa.Alloc
 	for _, a := range as {
+		if a.Heap {
+			continue
+		}
 		if _, ok := c.St.m[cellKey(a, 0)]; ok {
 			live = append(live, a)
 		}
@@ -277,6 +289,19 @@ func (e *Enc) lookupLocal(c *Ctx, name string) (Val, bool) {
 	if len(live) > 1 {
 		// prefer the innermost (latest allocated)
 		return e.cellGet(c.St, live[len(live)-1]), true
+	}
+	for _, fv := range e.fn.FreeVars {
+		if fv.Name() == name {
+			pt := fv.Type().Underlying().(*types.Pointer)
+			return e.loadPtr(c.St, pt.Elem(), e.regs[fv].C[0]), true
+		}
+	}
+	for _, a := range as {
+		if a.Heap {
+			if r, ok := e.regs[a]; ok {
+				return e.loadPtr(c.St, a.Type().Underlying().(*types.Pointer).Elem(), r.C[0]), true
+			}
+		}
 	}
 	if v, ok := e.paramVals[name]; ok {
 		return v, true
@@ -322,6 +347,27 @@ func isHeapKey(k string) bool {
 
 // havocAll forgets every heap fact: a new generation of heap names.
 func (e *Enc) havocAll(st *State, g string) {
+	// private escaping locals (captured by closures of this function only) keep their value
+	type saved struct {
+		a   *ssa.Alloc
+		old Val
+	}
+	var keep []saved
+	for _, a := range e.privateCells {
+		if r, ok := e.regs[a]; ok {
+			t := a.Type().Underlying().(*types.Pointer).Elem()
+			if _, isSt := t.Underlying().(*types.Struct); !isSt {
+				keep = append(keep, saved{a, e.loadPtr(st, t, r.C[0])})
+			}
+		}
+	}
+	defer func() {
+		for _, s := range keep {
+			t := s.a.Type().Underlying().(*types.Pointer).Elem()
+			nv := e.loadPtr(st, t, e.regs[s.a].C[0])
+			e.assume(g, valEq(nv, s.old))
+		}
+	}()
 	for k := range st.m {
 		if isHeapKey(k) {
 			delete(st.m, k)
@@ -340,6 +386,10 @@ func fieldKey(stT types.Type, fidx, j int) string {
 }
 
 func (e *Enc) loadField(st *State, stT types.Type, fidx int, ref string) Val {
+	return e.loadFieldDeep(st, stT, fidx, ref)
+}
+
+func (e *Enc) loadFieldFlat(st *State, stT types.Type, fidx int, ref string) Val {
 	s := stT.Underlying().(*types.Struct)
 	ft := s.Field(fidx).Type()
 	v := Val{T: ft}
@@ -351,6 +401,10 @@ func (e *Enc) loadField(st *State, stT types.Type, fidx int, ref string) Val {
 }
 
 func (e *Enc) storeField(st *State, stT types.Type, fidx int, ref string, v Val) {
+	e.storeFieldDeep(st, stT, fidx, ref, v)
+}
+
+func (e *Enc) storeFieldFlat(st *State, stT types.Type, fidx int, ref string, v Val) {
 	s := stT.Underlying().(*types.Struct)
 	ft := s.Field(fidx).Type()
 	for j, so := range flatten(ft) {
@@ -649,7 +703,12 @@ func (e *Enc) Encode() {
 		v := e.freshVal("fv."+fv.Name(), fv.Type())
 		e.regs[fv] = v
 		e.assume("true", e.typeFacts(v))
-		e.paramVals[fv.Name()] = v
+		e.assume("true", not(eq(v.C[0], "0")))
+	}
+	if e.recovers(fn) {
+		rv := e.freshVal("recovered", types.NewInterfaceType(nil, nil))
+		e.assume("true", e.typeFacts(rv))
+		e.paramVals["recovered"] = rv
 	}
 	st.m["alloc"] = e.heapKey(st, "alloc", SInt)
 	e.assume("true", app("<", "0", st.m["alloc"]))
@@ -673,7 +732,20 @@ func (e *Enc) Encode() {
 	for _, b := range order {
 		e.block(b)
 	}
+	// blocks entered only by recovered panics (fn.Recover)
+	for _, b := range e.fn.Blocks {
+		if e.lateBlocks[b] {
+			e.block(b)
+		}
+	}
 	e.finish()
+	if e.spec != nil {
+		for gi, gs := range e.spec.Ghost {
+			if !e.ghostUsed[gi] {
+				panic(contractMismatch{"ghost statement anchor not found: " + gs.Anchor})
+			}
+		}
+	}
 }
 
 type contractMismatch struct{ msg string }
@@ -916,6 +988,9 @@ func (e *Enc) finish() {
 			e.items = append(e.items, Item{Kind: IAssert, Guard: ex.guard, Term: "false", Name: fmt.Sprintf("%s#canary.return%d", e.key, i+1), Canary: true, Class: "canary"})
 		}
 		g, st := e.merge("exit", in)
+		xb := &blockState{e: e, b: e.fn.Blocks[0], g: g, st: st}
+		xb.ghostAt("exit", e.fn.Blocks[0].Instrs[0], nil)
+		g = xb.g
 		c := e.ctx(st, "ensures")
 		for i := 0; i < results.Len(); i++ {
 			v := Val{T: results.At(i).Type()}
